@@ -976,6 +976,41 @@ def run_permuted_parts(ctx):
                 ctx.violation('api:' + fname, 'pspace;operand=own-parts-%s' % pname, 'raises:' + type(e).__name__, message=str(e)[:200])
 
 
+def run_repeated_part(ctx):
+    """An element that holds the SAME component object at two positions (pspace.element([p, p])), used as operand and output.
+    Only operations whose entry-wise result is the same for both positions are decided (scalars, the element itself, an operand
+    with equal parts): each position must show that result - the shared component is combined once, not once per position."""
+    rng = ctx.rng('repeated-part')
+    for bname, base in (('rn3', odl.rn(3)), ('rn150', odl.rn(150)), ('discr4', odl.uniform_discr(0, 1, 4)), ('rn2^2', odl.ProductSpace(odl.rn(2), 2))):
+        for n in (2, 3):
+            sp = odl.ProductSpace(base, n)
+            forms = [('X*=3', lambda X, Y: X.__imul__(3.0), lambda P, Q: 3.0 * P), ('X/=4', lambda X, Y: X.__itruediv__(4.0), lambda P, Q: P / 4.0),
+                     ('X+=Y', lambda X, Y: X.__iadd__(Y), lambda P, Q: P + Q), ('X-=Y', lambda X, Y: X.__isub__(Y), lambda P, Q: P - Q),
+                     ('X+=X', lambda X, Y: X.__iadd__(X), lambda P, Q: 2 * P), ('X*=X', lambda X, Y: X.__imul__(X), lambda P, Q: P * P),
+                     ('X*=Y', lambda X, Y: X.__imul__(Y), lambda P, Q: P * Q), ('lincomb(2,X,3,Y,out=X)', lambda X, Y: sp.lincomb(2.0, X, 3.0, Y, out=X), lambda P, Q: 2 * P + 3 * Q),
+                     ('lincomb(2,Y,3,X,out=X)', lambda X, Y: sp.lincomb(2.0, Y, 3.0, X, out=X), lambda P, Q: 2 * Q + 3 * P), ('lincomb(-1,X,out=X)', lambda X, Y: sp.lincomb(-1.0, X, out=X), lambda P, Q: -P)]
+            for fname, fn, ref in forms:
+                ctx.ev('api-differential')
+                ctx.case('repeated-part;%s;%s^%d' % (fname, bname, n), 0)
+                try:
+                    p_ = util.rand_element(base, rng, positive=True)
+                    q_ = util.rand_element(base, rng, positive=True)
+                    P, Q = util.to_cvec(base, p_).copy(), util.to_cvec(base, q_).copy()
+                    X = sp.element([p_] * n)
+                    Y = sp.element([q_.copy() for _ in range(n)])
+                    fn(X, Y)
+                    want = ref(P, Q)
+                    for k in range(n):
+                        got = util.to_cvec(base, X[k])
+                        if not np.allclose(got, want, rtol=1e-13, atol=0):
+                            ctx.violation('api:' + fname, 'pspace;same-component-object-at-%d-positions' % n, 'wrong-value', base=bname, position=k, got=got[:4], ref=want[:4])
+                            break
+                    if not np.array_equal(util.to_cvec(base, q_), Q):
+                        ctx.violation('api:' + fname, 'pspace;same-component-object-at-%d-positions' % n, 'operand-modified')
+                except Exception as e:
+                    ctx.violation('api:' + fname, 'pspace;same-component-object-at-%d-positions' % n, 'raises:' + type(e).__name__, message=str(e)[:200])
+
+
 def run(ctx):
     ctx.note('rule', 'cases = (API form | lincomb lattice point) x space x layouts x aliasing pattern x scalar '
                      'classes x seeded values; distinct = distinct (class, shape/layout/scalar-name/repetition) '
@@ -1003,6 +1038,7 @@ def run(ctx):
     if ctx.shard == 0:
         run_shared_buffer(ctx)
         run_permuted_parts(ctx)
+        run_repeated_part(ctx)
     if ctx.thorough and ctx.shard == 0 and ctx.round == 0:
         # W-ambient: the contract on every lincomb / multiply / divide the repository's own suite executes
         from .c03 import ambient_suite
